@@ -575,6 +575,19 @@ def _thread_results(j, tracked):
                     dropflags.add(l)      # drop-elaboration flags live for the whole body: not threaded
                 switched.add(l)
     switched -= dropflags
+    # `!matches!(..)`: the switched local is the negation of the constant-assigned one
+    grew = True
+    while grew:
+        grew = False
+        for blk in blocks:
+            for s_ in blk["stmts"]:
+                if s_[0] == "assign" and not s_[1]["p"] and s_[1]["l"] in switched and s_[2].get("ops") and (
+                        (s_[2]["k"] == "un" and s_[2].get("op") == "Not") or s_[2]["k"] == "use"):
+                    src = op_place(s_[2]["ops"][0])
+                    if src is not None and not src["p"] and j["locals"][src["l"]]["ty"] == "bool" \
+                            and src["l"] not in dropflags and src["l"] not in switched:
+                        switched.add(src["l"])
+                        grew = True
     boolsw = set()
     for blk in blocks:
         for s_ in blk["stmts"]:
@@ -608,6 +621,12 @@ def _thread_results(j, tracked):
                     v = kv.get("v")
                     if v in ("true", "false", "0", "1", 0, 1, True, False):
                         new = ("d", 1 if v in ("true", "1", 1, True) else 0)
+            elif k == "un" and rv.get("op") == "Not" and rv.get("ops"):
+                src = op_place(rv["ops"][0])
+                if src and not src["p"] and isinstance(st.get(src["l"]), tuple):
+                    new = ("d", 1 - st[src["l"]][1])
+                    if "m" in rv["ops"][0]:
+                        st.pop(src["l"])
             elif k == "discr" and not rv["place"]["p"] and rv["place"]["l"] in st and not isinstance(st[rv["place"]["l"]], tuple):
                 new = ("d", 0 if st[rv["place"]["l"]] in ("Ok", "Continue") else 1)
             if new is not None:
